@@ -19,7 +19,7 @@ CHECKS = {
              'threshold, coefficients, unit handling with symbolic unit factors) is matched against the gated '
              'canonical terms extracted from the source; mirror symmetry and continuity at the dead-zone boundary '
              'are polynomial identities of the extracted terms. Holds for all motor constants, speeds and duty '
-             'cycles over the reals; floating-point neighbours of the boundary are not decided. The tests that partition the duty-cycle axis must compare the same two operand terms in both laws (so that the laws agree at the floating-point neighbours of the boundary); other rounding is not decided.',
+             'cycles over the reals. At the floating-point neighbours of the boundary only branch selection is decided: the tests that partition the duty-cycle axis must compare the same two operand terms in both laws, and a denominator that vanishes on the boundary must be tested on its path; other rounding is not decided.',
         design='4/C08', engine='sa.sx + sa.match'),
 }
 
